@@ -268,10 +268,16 @@ class ForwardScheduler(IScheduler):
         if _task.id in calculated:
             return
 
-        for pred in _task.predecessors:
-            self.__forward_pass(pred, min_date, resource_usage, calculated)
+        # Task can be reached through a dependency link, not only through its parent,
+        # so predecessors of all parents are taken into account here
+        predecessors = [t for t in _task.predecessors]
+        for parent in _task.all_parents:
+            predecessors += [t for t in parent.predecessors]
 
-        max_predecessor_ends = max([t.end for t in _task.predecessors if t.end is not None] + [min_date])
+        for pred in predecessors:
+            self.__forward_pass(pred, self.__start, resource_usage, calculated)
+
+        max_predecessor_ends = max([t.end for t in predecessors if t.end is not None] + [min_date])
 
         for ch in _task.children:
             self.__forward_pass(ch, max_predecessor_ends, resource_usage, calculated)
@@ -440,10 +446,16 @@ class BackwardScheduler(IScheduler):
         if _task.id in calculated:
             return
 
-        for pred in _task.successors:
-            self.__backward_pass(pred, min_date, resource_usage, calculated)
+        # Task can be reached through a dependency link, not only through its parent,
+        # so successors of all parents are taken into account here
+        successors = [t for t in _task.successors]
+        for parent in _task.all_parents:
+            successors += [t for t in parent.successors]
 
-        min_successor_starts = min([t.start for t in _task.successors if t.start is not None] + [min_date])
+        for succ in successors:
+            self.__backward_pass(succ, self.__end, resource_usage, calculated)
+
+        min_successor_starts = min([t.start for t in successors if t.start is not None] + [min_date])
 
         for ch in reversed(_task.children):
             self.__backward_pass(ch, min_successor_starts, resource_usage, calculated)
